@@ -767,6 +767,7 @@ class Runner:
         self.lock = threading.Lock()
         self.threads = []
         self.zygotes_lost = 0
+        self.wall = 0.0
         self.t0 = time.time()
 
     def submit(self, job):
@@ -798,11 +799,12 @@ class Runner:
                 self.results[job["id"]] = res
         if z is not None:
             z.close()
+        with self.lock:
+            self.wall = time.time() - self.t0      # (the last thread to finish leaves the total)
 
     def join(self):
         for t in self.threads:
             t.join()
-        self.wall = time.time() - self.t0
         return self.results
 
 
